@@ -147,6 +147,30 @@ func (ev *numEnv) eval(e ast.Expr) (num, bool) {
 				}
 				return num{i: a.i % b.i}, true
 			}
+		case token.AND, token.OR, token.XOR, token.AND_NOT, token.SHL, token.SHR:
+			if fl || a.isBool || b.isBool {
+				return num{}, false
+			}
+			switch x.Op {
+			case token.AND:
+				return num{i: a.i & b.i}, true
+			case token.OR:
+				return num{i: a.i | b.i}, true
+			case token.XOR:
+				return num{i: a.i ^ b.i}, true
+			case token.AND_NOT:
+				return num{i: a.i &^ b.i}, true
+			case token.SHL:
+				if b.i < 0 || b.i > 62 {
+					return num{}, false
+				}
+				return num{i: a.i << uint(b.i)}, true
+			case token.SHR:
+				if b.i < 0 || b.i > 62 {
+					return num{}, false
+				}
+				return num{i: a.i >> uint(b.i)}, true
+			}
 		case token.EQL, token.NEQ, token.LSS, token.LEQ, token.GTR, token.GEQ:
 			if a.isBool || b.isBool {
 				if x.Op == token.EQL {
